@@ -351,7 +351,9 @@ func runC02(c *eng.Ctx) {
 			fx = append(fx, i)
 		}
 	}
-	// (b) cache-miss window
+	// (b) cache-miss window (godi's internal yield points perturb the schedule from here on)
+	rt.SetNoise(120)
+	defer func() { rt.SetNoise(0); c.R.Count("internal_yield_points_passed", rt.YieldCount()) }()
 	rounds := c.Pick(200, 5000)
 	for k := 0; k < rounds; k++ {
 		idx, mine := next()
